@@ -1,4 +1,5 @@
 """C09 — VCF round trip; lazy = eager: escaping sets, encode/decode pairing, shared span (DESIGN.md §5 C09)."""
+from .. import a10
 from .. import a7
 from .. import rules as R
 
@@ -120,6 +121,16 @@ def run(ctx):
             ctx.ok("C09.R3", w + " special-cases the lone '.'", "", f.loc())
         else:
             ctx.violation("C09.R3", "C09.R3/missing-marker/" + w, "%s no longer escapes a string equal to the missing marker '.'" % w, f.loc())
+
+    ctx.rule("C09.R5", "A3 reused buffer: every success path of the VCF record parser overwrites or clears each column of the destination RecordBuf")
+    R.reused_buffer_rule(ctx, "C09.R5", "noodles_vcf::io::reader::record_buf::parse_record_buf", "record_buf::RecordBuf::",
+                         ["reference_sequence_name_mut", "variant_start_mut", "ids_mut", "reference_bases_mut", "alternate_bases_mut",
+                          "quality_score_mut", "filters_mut", "info_mut", "samples_mut"],
+                         exceptions={"samples_mut": "parse_samples resets Samples field-wise (keys cleared, every values row cleared in a loop, "
+                                                    "then resized): an element-wise reset the whole-object rule cannot follow"})
+
+    ctx.rule("C09.R6", "A10 append-buffer discipline: VCF readers reset their line buffer before every appended line")
+    a10.discipline_rule(ctx, "C09.R6", r"^<?noodles_vcf::", 8)
 
     ctx.rule("C09.R4", "impl table: variant_end / variant_span are single provided implementations (lazy and eager share them)")
     tr = fb.traits.get(V + "variant::record::Record")
